@@ -261,8 +261,14 @@ def r16(ctx: Ctx):
             n += 1
             args = r_.exc.args
             whole = len(args) == 1 and isinstance(args[0], ast.Starred) and unparse(args[0].value) == f'{h.name}.args'
-            if whole or not args:
+            converts = unparse(r_.exc.func) not in unparse(h.type).replace('StopAsyncIteration', 'X') if unparse(r_.exc.func) == 'StopIteration' \
+                else 'StopAsyncIteration' not in unparse(h.type)
+            if whole or (not args and not converts):
               ctx.ok(rule, fi, f'{fi.qualname}: {unparse(r_.exc)[:40]}', r_)
+            elif not args:
+              ctx.fail(rule, fi, f'{fi.qualname}: a converted exhaustion signal carries *{h.name}.args',
+                       f'`{unparse(r_)[:60]}` converts the caught `{unparse(h.type)}` into a BARE exhaustion signal: the return values'
+                       ' the producers ended with are dropped on this path (the consumer\'s end-of-stream carries nothing)', node=r_)
             else:
               ctx.fail(rule, fi, f'{fi.qualname}: a converted exhaustion signal carries *{h.name}.args',
                        f'`{unparse(r_)[:60]}` rebuilds the exhaustion signal from `{unparse(args[0])[:20]}` instead of'
